@@ -43,6 +43,7 @@ type exchange struct {
 	maxReq  uint64 // limit the reader passes
 	maxResp uint64
 	raw     bool // RHP2: renter reads the response with RawResponse/VerifyTag
+	near    int  // RHP2: the response frame exceeds the reader's limit by exactly this many bytes (0: not used)
 }
 
 var rpcs2 = []struct {
@@ -133,6 +134,13 @@ func buildExchanges(t *sim.Tape, v int, overlimit bool) []exchange {
 		// (+ for RHP2: nonce and MAC)
 		ex.maxReq = uint64(len(ex.reqEnc)) + 64 + uint64(t.Choose(3))*512
 		ex.maxResp = uint64(len(ex.respEnc)) + 64 + uint64(t.Choose(3))*512
+		if v == 3 && t.Chance(1, 3) {
+			// RHP3 limits are on the object: one that is exactly as long as the
+			// limit, or a few bytes shorter, is within it
+			ex.maxReq = uint64(len(ex.reqEnc)) + uint64(pick(t, 0, 1, 7, 8, 9))
+			ex.maxResp = uint64(len(ex.respEnc)) + uint64(pick(t, 0, 1, 7, 8, 9))
+			ex.name += "(at its limit)"
+		}
 		if t.Chance(1, 6) {
 			ex.respErr = string(hexish(sim.HashBytes("err", uint64(i), 1, t.Range(1, 100))))
 		}
@@ -155,6 +163,14 @@ func buildExchanges(t *sim.Tape, v int, overlimit bool) []exchange {
 		ex.raw = false
 		ex.maxResp = uint64(t.Range(4096, 12000))
 		ex.name += "(response over limit)"
+		if v == 2 && t.Chance(1, 2) {
+			// ... or only just: the frame (nonce, response flag, object, MAC) is a
+			// few bytes longer than the limit the renter passes
+			ex.near = pick(t, 1, 2, 15, 16, 27, 28, 29, 100)
+			ex.maxResp = uint64(12+1+len(ex.respEnc)+16) - uint64(ex.near)
+			ex.raw = t.Chance(1, 2)
+			ex.name += fmt.Sprintf("(by %d bytes)", ex.near)
+		}
 	}
 	return out
 }
@@ -206,9 +222,14 @@ func runRHP2(s *Session, exs []exchange, wrongKey bool) {
 			}
 			var err error
 			var got pobj
+			_, _, usedBefore := c.in.stats()
 			if ex.raw {
 				var rr *rhp2.ResponseReader
-				rr, err = t.RawResponse(ex.maxResp + 4096)
+				lim := ex.maxResp + 4096
+				if ex.near > 0 {
+					lim = ex.maxResp
+				}
+				rr, err = t.RawResponse(lim)
 				if err == nil {
 					got = freshLike(ex.resp).(pobj)
 					var body []byte
@@ -228,6 +249,19 @@ func runRHP2(s *Session, exs []exchange, wrongKey bool) {
 				err = t.ReadResponse(got, ex.maxResp)
 			}
 			e.inc("rpc.read")
+			if ex.near > 0 {
+				// the limit is on the frame: the length prefix plus at most maxResp bytes
+				// may be taken off the connection for this message
+				_, _, usedAfter := c.in.stats()
+				e.inc("rhp2.near-limit")
+				if !s.anyFault() && err == nil {
+					e.violate("C19", "rhp2-overlimit-accepted", fmt.Sprintf("exchange %d: a response frame %d bytes longer than the limit of %d bytes was read without error (raw=%v)", i, ex.near, ex.maxResp, ex.raw))
+				} else if !s.anyFault() && usedAfter-usedBefore > int64(8+ex.maxResp) {
+					e.violate("C19", "rhp2-read-exceeds-limit", fmt.Sprintf("exchange %d: renter consumed %d bytes for a response it limits to %d (+8 for the length prefix)", i, usedAfter-usedBefore, ex.maxResp))
+				}
+				e.logf("ex %d %s: near-limit response refused=%v", i, ex.name, err != nil)
+				return
+			}
 			var re *rhp2.RPCError
 			switch {
 			case ex.respErr != "" && errors.As(err, &re):
